@@ -1,6 +1,6 @@
 (* C03 - Every emitted RPU is well-formed and decodes to exactly what was written. *)
 From Coq Require Import List NArith ZArith Bool String.
-From DV Require Import Outcome Bits BitIO Fields Blocks Rpu Ops Tables FieldsProofs C03Proofs RpuRTExample DmWS DmWSExample HeaderWS MappingRT MappingWS.
+From DV Require Import Outcome Bits BitIO Fields Blocks Rpu Ops Tables FieldsProofs C03Proofs RpuRTExample DmWS DmWSExample HeaderWS MappingRT MappingWS RpuWS RpuWSExample.
 From DVgen Require Import Consts_gen Blocks_gen DmData_gen Switches_gen.
 Import ListNotations.
 Open Scope N_scope.
@@ -80,6 +80,7 @@ Theorem C03_dm_write_sound : forall p h d w w',
   write_dm p d w = Ok w' -> dm_ok h d ->
   g_block_len_checked_parse = g_block_len_checked_write -> g_blocks_alloc_clamped = true ->
   exists bs29 bs40, w' = wput w (bs29 ++ bs40) /\
+    (match cmv40 d with Some c => cblocks c <> [] -> (18 <= List.length bs40)%nat | None => bs40 = [] end) /\
     forall rest pos, pos mod 8 = wpos w mod 8 ->
       (match cmv40 d with
        | Some _ => dm_data_payload2_min_bits <= N.of_nat (List.length (bs40 ++ rest))
@@ -115,6 +116,32 @@ Theorem C03_nlq_write_sound : forall h,
   exists bs, w' = wput w bs /\ reads (parse_nlq Debug h) bs q.
 Proof. exact nlq_write_sound. Qed.
 
+(* ------------------------------------------------------------------------------------------
+   THE RPU WRITE-SOUNDNESS THEOREM.  Whatever the writer emits for a canonical in-memory RPU
+   (prefix, header, mapping, DM payload, alignment, data before the CRC, CRC-32 over the payload,
+   0x80, trailing zero bytes), the parser accepts and returns exactly that RPU, with the CRC the
+   writer computed and the modified flag cleared; an unmodified RPU keeps its CRC.  Every profile,
+   every number of pivots / pieces / blocks, every length.  rpu_canonical = the typing / shape
+   invariants of the in-memory structures (decidable: C03_canonical_decidable; met by the parsed
+   FEL sample: C03_sample_is_canonical); it includes what the syntax cannot represent otherwise:
+   a CM v4.0 container is non-empty (the parser only looks for it behind >= 56 following bits),
+   data before the CRC is a non-empty whole number of bytes, signed coefficients below 2^52.
+   ------------------------------------------------------------------------------------------ *)
+Theorem C03_rpu_write_sound : forall p sw x out,
+  write_rpu_data p sw x = Ok out -> rpu_canonical sw x ->
+  exists crc, parse_inner Debug sw out = Ok (reparsed x crc) /\ (modified x = false -> crc = rpu_crc x).
+Proof. exact rpu_write_sound. Qed.
+
+Theorem C03_canonical_decidable : forall sw x, rpu_canonicalb sw x = true -> rpu_canonical sw x.
+Proof. exact rpu_canonicalb_ok. Qed.
+
+Example C03_sample_is_canonical :
+  match parse_inner Debug src_sw fel_sample with
+  | Ok x => rpu_canonicalb src_sw x = true
+  | _ => False
+  end.
+Proof. exact fel_sample_is_canonical. Qed.
+
 Theorem C03_switches_as_assumed :
   g_block_len_checked_parse = g_block_len_checked_write /\ g_blocks_alloc_clamped = true.
 Proof. vm_compute. auto. Qed.
@@ -131,5 +158,6 @@ Proof. exact fel_sample_dm_ok. Qed.
 
 Print Assumptions C03_fields_write_sound.
 Print Assumptions C03_dm_write_sound.
+Print Assumptions C03_rpu_write_sound.
 Print Assumptions C03_counts_enforced.
 Print Assumptions C03_write_block_no_panic.
